@@ -543,6 +543,43 @@ def _bookmarks_skip_invalid(ctx, hfn):
 
 _bookmarks_skip_invalid.positive = True
 row('C11', EDITOR, 'bookmarks:invalid-entries-skipped', _bookmarks_skip_invalid)
+
+
+def _bookmarks_full_i32(ctx, hfn):
+    """a bookmark entry is any `i32` as `Display` writes it (the encoder prints the whole range, the
+    pieces are not trimmed): the Bookmarks arm does not convert its pieces with the crate's
+    limit-checking `ParseNumber` funnel, which refuses `i32::MIN` and trims the piece first
+    (`NF_EXCEPTIONS[('editor', 'i32')]` records the same fact from the other side)"""
+    arms = []
+
+    def visit(n, anc):
+        if n.get('k') == 'match' and not n.get('src', '').startswith('TryDesugar'):
+            for a in n['arms']:
+                if 'EditorKey::Bookmarks' in repr(a['pat']):
+                    arms.append(a['body'])
+    H.walk(hfn['body'], visit)
+    if len(arms) != 1:
+        return False, 'expected one `EditorKey::Bookmarks` arm, found %d' % len(arms), None
+    funnel = []
+
+    def v2(n, anc2):
+        d = n.get('def') or ''
+        if n.get('k') in ('mcall', 'call', 'path') and (
+                'parse_number::ParseNumber' in d or d.endswith('::parse_num') or d.endswith('::parse_with_limits')
+                or 'util::parse_number::' in (n.get('full') or '')):
+            funnel.append((d, n.get('ln')))
+        f = n.get('f') if n.get('k') == 'call' else None
+        if isinstance(f, dict):
+            v2(f, anc2)
+    H.walk(arms[0], v2)
+    if funnel:
+        return False, ('bookmark entries are converted with the limit-checking number parser (%s): `i32::MIN`, which the encoder '
+                       'writes, does not come back, and padded pieces are accepted instead of skipped'
+                       % ', '.join(sorted({x[0] for x in funnel}))), funnel[0][1]
+    return True, '', arms[0].get('ln')
+
+
+row('C11', EDITOR, 'bookmarks:entries-are-plain-i32', _bookmarks_full_i32)
 def _mode_literals(ctx, hfn):
     """`Mode` accepts exactly the texts "0".."3"; anything else (other numbers, "03", "+2") is an error
     and leaves the field untouched"""
